@@ -1,9 +1,11 @@
 /- Model driver for property C10: evaluates the generated `Get_Pmat` matrices over ℚ.
    pmat3 q (9 rationals, variable order 3k+i: axis_1 x y z, axis_2 x y z, axis_3 x y z)  -> 36 pairs "a b" meaning a + b√2
-   pmat2 q (9 rationals, only the 2×2 block is read)                                    -> 9 pairs                        -/
+   pmat2 q (9 rationals, only the 2×2 block is read)                                    -> 9 pairs
+   frame dx dy dz vx vy vz (direction of the fiber, vector handed to the yAxis setter)   -> y' (3 rationals), z' (3 rationals): the un-normalised axes of Model/BeamFrame.lean -/
 import EasyFEAVerif.Model.Proto
 import EasyFEAVerif.Model.KelvinRot
 import EasyFEAVerif.Gen.C10.Pmat
+import EasyFEAVerif.Model.BeamFrame
 
 open EasyFEAVerif EasyFEAVerif.KelvinRot EasyFEAVerif.Gen.C10
 
@@ -20,5 +22,11 @@ def main : IO Unit := protoMain fun line =>
     | none => "bad-op"
   | "pmat2" :: r => match r.mapM parseRat with
     | some q => if q.length = 9 then evalM Pmat2 3 q else "bad-shape"
+    | none => "bad-op"
+  | "frame" :: r => match r.mapM parseRat with
+    | some [dx, dy, dz, vx, vy, vz] =>
+      let f := BeamFrame.frameQ (dx, dy, dz) (vx, vy, vz)
+      " ".intercalate ([f.1.1, f.1.2.1, f.1.2.2, f.2.1, f.2.2.1, f.2.2.2].map showRat)
+    | some _ => "bad-shape"
     | none => "bad-op"
   | _ => "bad-op"
